@@ -50,6 +50,7 @@ pub fn check(prop_values: bool, prop_signals: bool, d: &reg::IDesc, cfg: &dyn DC
 	let cfgv = cfg.ser().unwrap_or(Value::Null);
 	let Some(mut rf) = make_refi(d.name, &cfgv, &cs[0]) else { return false };
 	let Ok(Ok(mut inst)) = guard(|| cfg.init(&cs[0])) else { return false };
+	r.case_named(d.name, &[reg::json_hash(&cfgv), reg::candles_hash(cs), prefix as u64, prop_values as u64, prop_signals as u64]);
 	let (nv, ns) = cfg.size();
 	let mut val_exempt = vec![0u64; nv as usize];
 	let mut sig_exempt = vec![0u64; ns as usize];
@@ -149,6 +150,7 @@ pub fn check(prop_values: bool, prop_signals: bool, d: &reg::IDesc, cfg: &dyn DC
 		}
 	}
 	r.eval(steps * (if prop_values { nv as u64 } else { 0 } + if prop_signals { ns as u64 } else { 0 }).max(1));
+	r.sample_case(41, || json!({"indicator": d.name, "config": cfgv, "candle_class": gen::CANDLE_CLASSES.get(class % gen::CANDLE_CLASSES.len()), "leading_copies": prefix, "first_candle": format!("{:?}", cs[0]), "steps": steps, "value_steps_exempt(undefined)": val_exempt, "signal_steps_exempt(tie)": sig_exempt, "signals fired [buy,sell,silent] per slot": sig_fired, "max |error|/radius per value": max_used, "violated": vfail.iter().chain(sfail.iter()).any(|x| *x)}));
 	for k in 0..nv as usize {
 		if prop_values {
 			r.count(&format!("value_steps:{}:{k}", d.name), steps);
